@@ -76,6 +76,11 @@ def parseO (ws : List String) : Option Observe.Op :=
   | "oread" :: r => do let _ ← kvNat r "t"; pure .read
   | _ => none
 
+/-- `policy-seq n= tenants=`: transaction `k` leaves with the api key and the token of tenant `k mod tenants`
+    (round robin), whatever the transactions before it did -/
+def policySeq (n tenants : Nat) : String :=
+  ",".intercalate ((List.range n).map fun k => "x-api-key+x-tenant-" ++ toString (k % tenants) ++ "-token")
+
 def sortStrs (l : List String) : List String := (l.toArray.qsort (· < ·)).toList
 
 /-- `vcfg ttl=<ms> tick=<ms>` | `vadd k=<key>` | `vpass adv=<ms> [add=<key>]` -/
@@ -141,6 +146,10 @@ def runStep (s : RunSt) (line : String) : RunSt × String :=
       -- a transaction's call is answered `<with reads>/<without reads>`: by `metrics_reads_transparent` the two agree
       let a := if op.isRead then r.2.fmt else r.2.fmt ++ "/" ++ r.2.fmt
       ({ s with ob := some (c, r.1) }, a)
+    | _, _ => (s, "bad-op")
+  | "policy-seq" :: r =>
+    match kvNat r "n", kvNat r "tenants" with
+    | some n, some t => if 1 ≤ n ∧ n ≤ 64 ∧ 1 ≤ t ∧ t ≤ 8 then (s, policySeq n t) else (s, "bad-op")
     | _, _ => (s, "bad-op")
   | "retain" :: _ => (s, "stable")          -- a lookup's answer is a value: later lookups cannot change it
   | "retain-conc" :: _ => (s, "stable")
@@ -226,6 +235,12 @@ def judgeStep (s : JudgeSt) (op out : String) : JudgeSt :=
         else { s2 with bad := some ("counted-transaction-refused:r=" ++ toString r ++ ":" ++ pctEnc out) }
       | .read => s1
     | _, _ => { s with bad := some "unparsable-observe-op" }
+  | "policy-seq" :: r =>
+    match kvNat r "n", kvNat r "tenants" with
+    | some n, some t =>
+      if out == policySeq n t then s
+      else { s with bad := some ("transaction-left-with-what-another-transaction-wrote:" ++ pctEnc out) }
+    | _, _ => s
   | "overlap" :: _ => if out == "held=same inner=same" then s else { s with bad := some ("transaction-left-with-another-transactions-actions:" ++ pctEnc out) }
   | "retain-conc" :: _ => if out == "stable" then s else { s with bad := some ("lookup-answer-changed-by-another-transaction:" ++ pctEnc out) }
   | "retain" :: _ => if out == "stable" then s else { s with bad := some ("lookup-answer-changed-by-another-transaction:" ++ pctEnc out) }
